@@ -16,8 +16,8 @@ hook_commits = subprocess.run(
 checks = []
 for p in props:
     pid = p["id"]
-    if pid not in specs:
-        continue
+    if pid not in specs or pid not in meta.get("claimed", list(specs)):
+        continue  # checks.json also holds checks still under construction: only `claimed` is registered
     s = specs[pid]
     m = meta["checks"].get(pid, {})
     checks.append({
